@@ -166,6 +166,11 @@ func (tr *Tr) callContract(key string, fc *FuncContract, f *ssa.Function, sig *t
 	if fc.Trusted {
 		tr.assumptions["trusted contract: "+key] = true
 	}
+	if f == nil && !fc.Trusted {
+		// dynamic dispatch: the call continues with the interface method's contract, which is an assumption about whichever
+		// implementation is behind the value (DESIGN §12.2 lists for which implementations it is proved)
+		tr.assumptions["interface contract (assumed of the implementation behind the value): "+key] = true
+	}
 	env := &CEnv{vars: map[string]EV{}, st: st, old: st, pkg: tr.g.contractPkg(key, f)}
 	tr.bindParams(env, f, sig, recv, args)
 	for _, rq := range fc.Requires {
